@@ -608,9 +608,22 @@ def compare_with_model(case, obs):
 
 
 # --------------------------------------------------------------------------
+def norm_kind(k):
+    """Archetype label as used in signatures: the signalling code does not
+    matter for the option-value cases, an elective-only CSM is a CSM."""
+    import re
+
+    if k == "csm+elective":
+        return "csm"
+    if re.fullmatch(r"(csm|ping|pong)\+o(8|20)bin", k):
+        return "sig+o8/20bin"
+    if re.fullmatch(r"(csm|ping|pong|release|abort)-crit-bin3", k):
+        return "sig-crit-bin3"
+    return k
+
+
 def shape_of(case, upto):
-    ks = [f["k"] for f in case["frames"][:upto]]
-    return ",".join(ks)
+    return ",".join(norm_kind(f["k"]) for f in case["frames"][:upto])
 
 
 def hexs(b):
@@ -733,7 +746,7 @@ def work(rep, args):
 
         # ---- 4. the recorded executions go back to TLC ----------------------------
         rx = [rx_record(c, o) for c, o in zip(all_cases, results)]
-        _, verdicts = tlc_eval(wd, "judge", [], rx, timeout=900 if quick else 2400, parts=6 if quick else 12)
+        _, verdicts = tlc_eval(wd, "judge", [], rx, timeout=900 if quick else 2400, parts=4 if quick else 12)
         t_judge = time.time() - t0 - t_tlc - t_run
         if os.environ.get("C15_TIMING"):
             print("timing mc %.1f sim %.1f enc %.1f (parallel: %.1f) run %.1f judge %.1f; cases %d" % (t_mc, t_sim, t_enc, t_tlc, t_run, t_judge, len(all_cases)))
@@ -824,13 +837,13 @@ def judge_cases(wd, tag, cases):
         if "error" in o:
             raise MachineryError("driver failed: %s" % o["error"])
     rx = [rx_record(c, o) for c, o in zip(cases, results)]
-    _, verdicts = tlc_eval(wd, tag, [], rx, timeout=600, parts=4)
+    _, verdicts = tlc_eval(wd, tag, [], rx, timeout=600, parts=2)
     return results, verdicts
 
 
 def first_csm(frames, upto):
     for f in frames[:upto]:
-        if f["k"] == "csm":
+        if f["k"] in ("csm", "csm+elective"):
             return f
     return None
 
@@ -904,7 +917,7 @@ def report_failures(rep, wd, all_cases, results, verdicts, failing):
             if not f["b"]:
                 continue
             csm = first_csm(c["frames"], j)
-            key = (csm is not None, f["k"], c["npend"] > 0)
+            key = (csm is not None, norm_kind(f["k"]), c["npend"] > 0)
             if key in atoms or len(atoms) >= 150:
                 continue
             fr = ([csm] if csm else []) + [f]
@@ -931,7 +944,7 @@ def report_failures(rep, wd, all_cases, results, verdicts, failing):
 
     for i in failing:
         c, v = all_cases[i], verdicts[i]
-        keys = [(first_csm(c["frames"], j) is not None, f["k"], c["npend"] > 0) for j, f in enumerate(c["frames"])]
+        keys = [(first_csm(c["frames"], j) is not None, norm_kind(f["k"]), c["npend"] > 0) for j, f in enumerate(c["frames"])]
         todo = clauses_of(v)
         if "NOTE_exception" in v["bad"]:
             # data_received raised: whatever clauses this execution breaks from there on
